@@ -23,7 +23,10 @@ import (
 // and the error summary are the real ones, and every executed line is identified by content). The multiset of executed log
 // ids must be exactly {0..L-1}.
 
-var c17Variants = []string{"lf", "lf_no_final_newline", "crlf", "lf_blank_lines", "crlf_blank_lines_no_final_newline", "lf_long_line_5k", "crlf_long_line_40k"}
+var c17Variants = []string{"lf", "lf_no_final_newline", "crlf", "lf_blank_lines", "crlf_blank_lines_no_final_newline", "lf_long_line_5k", "crlf_long_line_40k", "lf_block_aligned", "crlf_block_aligned"}
+
+// c17AlignedEnds: byte offsets at which the line terminators of the first lines of a block-aligned file start
+var c17AlignedEnds = []int{32768, 65536, 114688, 163840, 212992, 262144, 294912}
 
 func c17BatchFile(L int, variant string, lineHead string) string {
 	nl := "\n"
@@ -39,6 +42,17 @@ func c17BatchFile(L int, variant string, lineHead string) string {
 			}
 		}
 		pad := ""
+		if strings.Contains(variant, "block_aligned") && i < len(c17AlignedEnds) {
+			// a large file whose first line ends fall on the boundaries of power-of-two read blocks (4 KiB ... 256 KiB): the
+			// line terminator is the first byte of a block (LF files) or is cut in two by it (CRLF files)
+			want := c17AlignedEnds[i] - b.Len() - len(lineHead) - len(fmt.Sprintf(" soilId=X%03d", i))
+			if nl == "\r\n" {
+				want-- // the boundary falls between CR and LF
+			}
+			if want > 0 {
+				pad = strings.Repeat(" ", want)
+			}
+		}
 		if strings.Contains(variant, "long_line") && i == L/2 {
 			// one line far longer than common read buffers (4 KiB / 64 KiB stay below the line scanner's own limit)
 			n := 5000
